@@ -60,6 +60,22 @@ PROPS = {
                     "or between adjacent strings); Eq/Hash on NodeId = structural equality of the kind() view is the subject of C14"],
         "assumptions": ["`wf` of the operands: C20"],
     },
+    "C20": {
+        "lean_targets": ["Pep508.Theorems.C20"],
+        "theorems": [
+            "Pep508.C20.wf_true", "Pep508.C20.wf_false", "Pep508.C20.wf_and", "Pep508.C20.wf_or", "Pep508.C20.wf_not",
+            "Pep508.C20.apply_ranges_nonempty", "Pep508.C20.wf_covers", "Pep508.PartL_product", "Pep508.partitionFrom_coalesce",
+            "Pep508.wf_node_map", "Pep508.wf_createNodeR",
+        ],
+        "suites": [{"name": "algebra", "args": ["C20"]}],
+        "rule": "a pool of markers is built through the real API along random construction paths (typed expressions, and/or/negate, simplify_extras, "
+                "simplify/complexify_python_versions, plus shapes generated on purpose); for every pool marker (a) a Rust re-implementation of the property text walks "
+                "kind() (order, partition, adjacent children, no all-equal node), (b) the Lean predicate Tree.wf is evaluated by the driver on the dump, (c) edges are "
+                "chosen by hand on region environments and compared with evaluate(); then every operation (and/or/not/simplify_extras/simplify/complexify) is applied "
+                "one step from literal operands, the result dump compared with the model and checked again; non-trivial = distinct op case",
+        "trusted": [],
+        "assumptions": [],
+    },
 }
 
 NOT_APPLICABLE = {}
@@ -67,6 +83,14 @@ NOT_APPLICABLE = {}
 _NOTE = ("Trusted: Lean 4.33 kernel (+ propext, Classical.choice, Quot.sound, audited per theorem); the hand-written model is tied to the code by "
          "differential correspondence on generated cases (sampled, not proved); ")
 MANIFEST_TEXT = {
+    "C20": {
+        "technique": "Lean 4 theorems: the executable C20 predicate Tree.wf is preserved by and/or/not (product of partitions is a partition, coalescing restores "
+                     "adjacent-distinct, create_node reduction, rank invariant) + the same predicate evaluated on implementation dumps + one-step correspondence",
+        "text": "wf_andF / wf_and / wf_or / wf_not with the partition lemmas (PartL_product, partitionFrom_coalesce, wf_createNodeR, wf_node_map) proved for all "
+                "diagrams over arbitrary linear orders; restrict / simplify / complexify / expression preservation: see evidence.theorems for what is proved at this "
+                "commit, the rest rests on the driver evaluating Tree.wf on every implementation dump and on the Rust oracle written from the property text.",
+        "note": _NOTE + "preservation theorems for the unary operations are added as they are proved (evidence lists the exact set).",
+    },
     "C09": {
         "technique": "Lean 4 theorems over a byte-level model of both name scanners + bounded-exhaustive differential correspondence",
         "text": "Seven theorems over ALL byte strings (acceptance iff valid, stored form = declarative normal form, owned = borrowed constructor, idempotence, "
